@@ -75,6 +75,9 @@ def gen_case(rng, tier, idx):
     total = 0
     for i in range(ns):
         st = rng.choice([2, 4, 8, 15])
+        if idx % 16 == 5:
+            # long runs: hook times of several hundred steps (past the 100-step blocks and past the small integers)
+            st = rng.choice([90, 130, 170])
         total += st
         pl, ex = rng.choice([(True, True), (True, True), (True, False), (False, False)])
         cfg["simulation"]["sessions"].append({"sessionName": i, "iterationSteps": st, "withOrderPlacement": pl,
